@@ -1,17 +1,25 @@
 """C01 — results do not depend on the container format; inputs are never modified.
 
  (1) `run` lines: the Lean model of the ingestion step (SkNet/Model/Container.lean: sparse.csr_matrix(x) for
-     CSR / CSC / COO / LIL / dense input with bool / int / float entries, explicit zeros, duplicates, unsorted
-     indices) against scipy + check_format: canonical CSR compared exactly.
- (2) generated obligations: tools/translate/effects.py turns every public function / method of the working
-     tree into an ownership program (Generated/Effects.lean); `safe` is decided through the driver and
-     kernel-checked (`by decide`) — theorem `ownership_sound` says a safe program leaves caller cells alone.
- (3) the statement on the implementation: every public entry point is called on one graph in all its
-     documented representations and the outputs compared (within round-off); every argument is snapshotted
-     before and compared after the call.
+     CSR / CSC / COO / LIL / dense input, entries of type bool / intN / uintN / float, duplicates, unsorted
+     indices, cancelling duplicates) against scipy + check_format: stored CSR rows and canonical CSR compared
+     exactly, in the arithmetic of the dtype.
+ (2) generated obligations: tools/translate/effects.py turns the functions / methods of the working tree
+     (Python sources and the Python-level `def`s of the .pyx files) into ownership programs
+     (Generated/Effects.lean); `Fn.ok` is decided through the driver and kernel-checked (`by decide`) — theorem
+     `ownership_sound` says a safe program leaves caller cells alone. The translator's own regression tests
+     (tiny sources that must come out not-ok) run first.
+ (3) the statement on the implementation: every entry of tools/harness/c01_entries.py is called on one graph in
+     several representations (container format x dtype, drawn independently) and the outputs compared with the
+     float64 CSR reference (within round-off); every argument is snapshotted before and compared after the call.
 """
+import concurrent.futures
 import copy
-import inspect
+import hashlib
+import multiprocessing
+import os
+import random
+import time
 import warnings
 
 import numpy as np
@@ -19,55 +27,42 @@ from scipy import sparse
 
 from vlib import graphs
 from vlib.cases import Case, Sub, call, evaluate
-from vlib.core import enc_list, enc_ratlist, enc_rat, ToolFailure
+from vlib.core import enc_rat, ToolFailure, log
 
-RULE = ('entry points: every public estimator and matrix-taking function of ranking, clustering, hierarchy, embedding, '
-        'classification, regression, linkpred, gnn, path, topology, visualization (table in _entries); representations: '
-        'CSR float (reference), CSC, COO (with split duplicate entries), LIL, dense ndarray, CSR bool / int when the '
-        'weights allow, CSR with shuffled column indices (explicit stored zeros are not among the representations the property lists and are not generated); graphs: structured random undirected, '
-        'directed and bipartite graphs n<=12 (quick 6 per entry point, thorough 40); non-trivial = the graph has an edge '
-        'and the representation differs from the reference; distinct = distinct (entry, graph, representation)')
-ASSUMPTIONS = ['round-off: float64 outputs within 1e-8, float32 kernels within 5e-5, iterative solvers within 5e-6; '
-               'numpy global RNG re-seeded before every call (KCenters and the layouts draw from it); eigen / singular vectors compared up to one sign per component; SVG strings compared after normalising numeric literals',
+from harness import c01_entries as T
+
+PER_ENTRY = {'quick': 3, 'thorough': 30}
+CONTAINERS = {'quick': 400, 'thorough': 4000}
+NORM_MASK = 1e-7        # rows of a normalised embedding are compared when their raw norm exceeds NORM_MASK * (largest raw norm)
+F32_TOL = 5e-5          # float32 containers: round-off of float32 arithmetic (DESIGN §8: 2e-5 (1+|x|) per operation)
+
+RULE = ('entry points: the table tools/harness/c01_entries.py (public estimators and matrix-taking functions of ranking, clustering, '
+        'hierarchy, embedding, classification, regression, linkpred, gnn, path, topology, visualization, utils, linalg; their number '
+        'is `entries` in this evidence). Graph kinds per entry: undirected / connected undirected / directed / bipartite in turn, '
+        'n <= 11, weights unit, {1,2,3}, dyadic fractions or {1,100,200}; per graph the reference is the float64 sorted CSR and the '
+        'representations are drawn as (container format) x (dtype): every format of the entry\'s policy once with a random '
+        'representable dtype, then every representable dtype not yet drawn with a random format — formats csr, csr_unsorted '
+        '(shuffled column indices), csc, coo, coo_dup (duplicate entries, shuffled order), lil, '
+        'dense; dtypes float64, float32, int64, int32, int8, uint8, bool; entries whose documented input is sparse.csr_matrix only '
+        'get the CSR formats (csr+dense: and ndarray); bipartite graphs go through the *_row / *_col arguments; labels / values / weights are passed as '
+        'dict, array or list in turn; explicit stored zeros are not among the representations the property lists and are not '
+        'generated. Graphs per entry: `graphs_per_entry` in this evidence. Clause "same result": output (fitted attributes, return '
+        'value, predict on extra vectors) equal to the reference within the tolerance of the entry; normalised embeddings '
+        '(Spectral, SVD, GSVD, PCA, RandomProjection with normalized=True) are compared on the rows whose un-normalised norm exceeds '
+        '1e-7 of the largest row norm (below it the normalisation amplifies round-off to O(1)), the un-normalised embedding is '
+        'compared in full; eigen / singular vectors up to one sign per component, skipped when the spectrum is degenerate (counted as '
+        '`degenerate-spectrum`); HITS is not compared when the leading singular value is multiple; a k-nearest-neighbour choice '
+        '(NNLinker, NNClassifier) that differs only between candidates tied at the k-th place is counted as `tie-skipped`. Clause "inputs not modified": every argument, the matrix, and every second matrix compared with a '
+        'snapshot taken before the call, for the reference call too. Both calls raising the same exception class is counted per '
+        'entry (`both_raise`) and not as an evaluated comparison. non-trivial = the graph has an edge and the stored representation '
+        'differs from the reference (format, dtype or stored order); distinct = distinct (entry, graph, representation)')
+ASSUMPTIONS = ['round-off: float64 outputs within 1e-8, float32 kernels within 5e-5, iterative solvers within 5e-6, float32 containers '
+               'within 5e-5; numpy global RNG re-seeded before every call (KCenters and the layouts draw from it); eigen / singular '
+               'vectors compared up to one sign per component and only when the leading values are simple; SVG strings compared after '
+               'normalising numeric literals, as multisets of elements',
                'sort_indices on a caller CSR is the one tolerated in-place effect (property text)',
-               'functions annotated sparse.csr_matrix only are exercised on CSR variants (dtype, unsorted, explicit zeros)']
-
-
-# ------------------------------------------------------------------------------------------------
-# representations
-# ------------------------------------------------------------------------------------------------
-def representations(a, rng, policy):
-    """name -> object denoting the same graph as the canonical float CSR `a`."""
-    a = sparse.csr_matrix(a).astype(float)
-    a.sort_indices()
-    reps = {}
-    reps['csr_unsorted'] = graphs.unsorted_copy(a, rng)
-    z = a.tolil()
-    dense = a.toarray()
-    integral = np.all(a.data == np.round(a.data))
-    if integral:
-        reps['csr_int'] = a.astype(int)
-        if a.nnz and 0 <= a.data.min() and a.data.max() < 128:
-            reps['csr_int8'] = a.astype(np.int8)
-    if np.all(a.data == 1):
-        reps['csr_bool'] = a.astype(bool)
-    if policy == 'all':
-        reps['csc'] = a.tocsc()
-        coo = a.tocoo()
-        # split one entry into two duplicates that sum to it (COO semantics: duplicates add)
-        if coo.nnz and integral and coo.data.max() >= 2:
-            k = int(np.argmax(coo.data))
-            data = np.append(coo.data, 1.0)
-            data[k] -= 1.0
-            coo = sparse.coo_matrix((data, (np.append(coo.row, coo.row[k]), np.append(coo.col, coo.col[k]))), shape=a.shape)
-        reps['coo'] = coo
-        reps['lil'] = z
-        reps['dense'] = dense.copy()
-        if integral:
-            reps['dense_int'] = dense.astype(int)
-    return reps
-
-
+               'functions annotated sparse.csr_matrix only are exercised on CSR variants (dtype, unsorted indices)',
+               'weights are non-negative (negative weights are outside the documented domain of most estimators)']
 # ------------------------------------------------------------------------------------------------
 # snapshots
 # ------------------------------------------------------------------------------------------------
@@ -213,254 +208,391 @@ def _dense_arr(v):
     return np.asarray(v.todense()) if sparse.issparse(v) else np.asarray(v)
 
 
-def fitted(est):
-    """public fitted attributes of an estimator"""
-    out = {}
-    for k, v in vars(est).items():
-        if k.endswith('_') and not k.startswith('_'):
-            out[k] = v
-    return out
-
-
 # ------------------------------------------------------------------------------------------------
-# entry points
+# (3) the statement on the implementation
 # ------------------------------------------------------------------------------------------------
-def _entries():
-    """name -> (kind of graph, policy, tolerance, f(matrix, aux) -> output)
-       kind: 'und' (symmetric), 'dir', 'bip' (rectangular), 'und_conn' (connected symmetric)"""
-    import sknetwork as skn
-    from sknetwork import ranking, clustering, hierarchy, embedding, classification, regression, linkpred, gnn, path, \
-        topology, visualization
-    E = {}
-
-    def est(name, mk, kind='und', tol=1e-8, fitkw=None, policy='all'):
-        def f(m, aux, mk=mk, fitkw=fitkw):
-            e = mk()
-            kw = {k: aux[v] for k, v in (fitkw or {}).items()}     # the caller's own objects: snapshotted around the call
-            e.fit(m, **kw)
-            return fitted(e), kw
-        E[name] = (kind, policy, tol, f)
-
-    def fun(name, f0, kind='und', tol=1e-8, policy='csr'):
-        def f(m, aux, f0=f0):
-            return f0(m, aux), {}
-        E[name] = (kind, policy, tol, f)
-
-    # ranking
-    for s, tol in (('piteration', 1e-8), ('RH', 1e-8), ('diteration', 5e-5), ('push', 5e-5), ('lanczos', 5e-6), ('bicgstab', 5e-6)):
-        est('PageRank(%s)' % s, lambda s=s: ranking.PageRank(solver=s, n_iter=40), 'dir', tol)
-    est('PageRank(seeds)', lambda: ranking.PageRank(), 'und', 1e-8, {'weights': 'weights'})
-    est('Katz', lambda: ranking.Katz(), 'dir')
-    est('HITS', lambda: ranking.HITS(), 'bip', 1e-6)
-    est('Closeness', lambda: ranking.Closeness(), 'und_conn')
-    est('Betweenness', lambda: ranking.Betweenness(), 'und', 5e-5)
-    # clustering
-    for mod in ('dugue', 'newman', 'potts'):
-        est('Louvain(%s)' % mod, lambda mod=mod: clustering.Louvain(modularity=mod, shuffle_nodes=False, random_state=0), 'und', 5e-5)
-        est('Leiden(%s)' % mod, lambda mod=mod: clustering.Leiden(modularity=mod, shuffle_nodes=False, random_state=0), 'und', 5e-5)
-    for cname, ctor in (('Louvain', clustering.Louvain), ('Leiden', clustering.Leiden)):
-        est('%s(aggregate only)' % cname, lambda ctor=ctor: ctor(shuffle_nodes=False, random_state=0, return_probs=False, return_aggregate=True), 'und', 5e-5)
-        est('%s(aggregate only,directed)' % cname, lambda ctor=ctor: ctor(shuffle_nodes=False, random_state=0, return_probs=False, return_aggregate=True), 'dir', 5e-5)
-        est('%s(unsorted,res=0.5)' % cname, lambda ctor=ctor: ctor(shuffle_nodes=False, random_state=0, sort_clusters=False, resolution=0.5, return_aggregate=True), 'dir', 5e-5)
-        est('%s(bipartite,aggregate only)' % cname, lambda ctor=ctor: ctor(shuffle_nodes=False, random_state=0, return_probs=False, return_aggregate=True), 'bip', 5e-5)
-    est('PropagationClustering(aggregate only)', lambda: clustering.PropagationClustering(return_probs=False, return_aggregate=True), 'und', 5e-5)
-    est('Louvain(directed)', lambda: clustering.Louvain(shuffle_nodes=False, random_state=0), 'dir', 5e-5)
-    est('Louvain(bipartite)', lambda: clustering.Louvain(shuffle_nodes=False, random_state=0), 'bip', 5e-5)
-    est('PropagationClustering', lambda: clustering.PropagationClustering(), 'und', 5e-5)
-    est('KCenters', lambda: clustering.KCenters(n_clusters=2, center_position='row'), 'und', 5e-5)
-    fun('get_modularity', lambda m, aux: clustering.get_modularity(m, aux['partition']), 'dir', 1e-10, 'all')
-    # hierarchy
-    est('Paris', lambda: hierarchy.Paris(), 'und', 1e-8)
-    est('LouvainHierarchy', lambda: hierarchy.LouvainHierarchy(shuffle_nodes=False, random_state=0), 'und', 5e-5)
-    est('LouvainIteration', lambda: hierarchy.LouvainIteration(shuffle_nodes=False, random_state=0), 'und', 5e-5)
-    fun('dasgupta_cost', lambda m, aux: hierarchy.dasgupta_cost(m, aux['dendrogram']), 'und', 1e-9)
-    fun('tree_sampling_divergence', lambda m, aux: hierarchy.tree_sampling_divergence(m, aux['dendrogram']), 'und', 1e-9)
-    # embedding
-    est('Spectral', lambda: embedding.Spectral(2), 'und_conn', 1e-6)
-    est('SVD', lambda: embedding.SVD(2), 'bip', 1e-6)
-    est('GSVD', lambda: embedding.GSVD(2), 'bip', 1e-6)
-    est('PCA', lambda: embedding.PCA(2), 'bip', 1e-6)
-    est('RandomProjection', lambda: embedding.RandomProjection(2, random_state=3), 'und', 1e-8)
-    est('LouvainEmbedding', lambda: embedding.LouvainEmbedding(shuffle_nodes=False, random_state=0), 'bip', 5e-5, policy='csr')
-    est('Spring', lambda: embedding.Spring(2, n_iter=5), 'und', 1e-6, {'position_init': 'position'})
-    est('ForceAtlas', lambda: embedding.ForceAtlas(2, n_iter=5), 'und', 1e-6, {'pos_init': 'position'})
-    # classification / regression / linkpred
-    est('Propagation', lambda: classification.Propagation(n_iter=8), 'und', 5e-5, {'labels': 'labels'})
-    est('Propagation(weighted,array)', lambda: classification.Propagation(n_iter=8, weighted=True), 'und', 5e-5, {'labels': 'labels_array'})
-    est('DiffusionClassifier', lambda: classification.DiffusionClassifier(), 'und', 1e-8, {'labels': 'labels'})
-    est('NNClassifier', lambda: classification.NNClassifier(n_neighbors=2), 'und', 1e-6, {'labels': 'labels'})
-    est('PageRankClassifier', lambda: classification.PageRankClassifier(), 'und', 5e-6, {'labels': 'labels'})
-    est('Diffusion', lambda: regression.Diffusion(), 'dir', 1e-8, {'values': 'values'})
-    est('Dirichlet', lambda: regression.Dirichlet(), 'und', 1e-8, {'values': 'values_array'})
-    est('NNLinker', lambda: linkpred.NNLinker(n_neighbors=2), 'und', 1e-6)
-    # gnn
-    est('GNNClassifier', lambda: gnn.GNNClassifier(dims=[4, 2], random_state=1, verbose=False), 'und', 1e-6,
-        {'features': 'features', 'labels': 'labels_array', 'n_epochs': 'n_epochs'})
-    # path
-    fun('get_distances', lambda m, aux: path.get_distances(m, source=aux['sources']), 'dir', 0)
-    fun('get_shortest_path', lambda m, aux: path.get_shortest_path(m, source=aux['sources']), 'dir', 0)
-    fun('breadth_first_search', lambda m, aux: sorted(path.breadth_first_search(m, aux['sources'][0]).tolist()), 'dir', 0)
-    fun('get_dag', lambda m, aux: path.get_dag(m, order=aux['order']), 'dir', 0)
-    # topology
-    fun('count_triangles', lambda m, aux: topology.count_triangles(m), 'und', 0)
-    fun('count_triangles(parallel)', lambda m, aux: topology.count_triangles(m, parallelize=True), 'und', 0)
-    fun('count_cliques', lambda m, aux: topology.count_cliques(m, 3), 'und', 0)
-    fun('get_core_decomposition', lambda m, aux: topology.get_core_decomposition(m), 'und', 0)
-    fun('get_clustering_coefficient', lambda m, aux: topology.get_clustering_coefficient(m), 'und', 1e-12)
-    fun('color_weisfeiler_lehman', lambda m, aux: topology.color_weisfeiler_lehman(m), 'und', 0, 'all')
-    fun('are_isomorphic', lambda m, aux: topology.are_isomorphic(m, sparse.csr_matrix(m)), 'und', 0)
-    fun('get_connected_components', lambda m, aux: _canon_labels(topology.get_connected_components(m)), 'dir', 0)
-    fun('is_connected', lambda m, aux: topology.is_connected(m), 'dir', 0)
-    fun('get_largest_connected_component', lambda m, aux: topology.get_largest_connected_component(m, return_index=True), 'dir', 0)
-    fun('is_bipartite', lambda m, aux: topology.is_bipartite(m), 'und', 0)
-    fun('is_acyclic', lambda m, aux: topology.is_acyclic(m), 'dir', 0)
-    fun('get_cycles', lambda m, aux: sorted(sorted(map(int, c)) for c in topology.get_cycles(m)), 'dir', 0)
-    fun('break_cycles', lambda m, aux: topology.break_cycles(m, root=0), 'dir', 0)
-    # visualization
-    fun('visualize_graph', lambda m, aux: visualization.visualize_graph(m, position=aux['position'], labels=aux['labels_array']), 'und', 0)
-    fun('visualize_graph(names)', lambda m, aux: visualization.visualize_graph(m, position=aux['position'], names=aux['names'], display_edge_weight=True), 'dir', 0)
-    fun('visualize_bigraph', lambda m, aux: visualization.visualize_bigraph(m), 'bip', 0)
-    return E
+def ser(x):
+    """JSON-able, type-preserving description of an argument (for replay files)"""
+    if sparse.issparse(x):
+        c = x.tocoo()
+        return {'__sp__': x.format, 'shape': list(x.shape), 'dtype': str(x.dtype), 'row': c.row.tolist(), 'col': c.col.tolist(),
+                'data': c.data.tolist()}
+    if isinstance(x, np.ndarray):
+        return {'__nd__': x.tolist(), 'dtype': str(x.dtype)}
+    if isinstance(x, np.generic):
+        return x.item()
+    if isinstance(x, dict):
+        return {'__dict__': [[ser(k), ser(v)] for k, v in x.items()]}
+    if isinstance(x, tuple):
+        return {'__tuple__': [ser(v) for v in x]}
+    if isinstance(x, list):
+        return [ser(v) for v in x]
+    return x
 
 
-def _canon_labels(l):
-    l = list(map(int, l))
-    first = {}
-    return [first.setdefault(x, len(first)) for x in l]
+def deser(x):
+    if isinstance(x, dict):
+        if '__sp__' in x:
+            m = sparse.coo_matrix((np.asarray(x['data'], dtype=x['dtype']), (x['row'], x['col'])), shape=tuple(x['shape']))
+            return m.asformat(x['__sp__'])
+        if '__nd__' in x:
+            return np.array(x['__nd__'], dtype=x['dtype'])
+        if '__dict__' in x:
+            return {deser(k): deser(v) for k, v in x['__dict__']}
+        if '__tuple__' in x:
+            return tuple(deser(v) for v in x['__tuple__'])
+        return {k: deser(v) for k, v in x.items()}
+    if isinstance(x, list):
+        return [deser(v) for v in x]
+    return x
 
 
-def _aux(rng, a):
-    n, m = a.shape
-    k = rng.randint(1, min(3, n))
-    part = np.array([rng.randrange(3) for _ in range(n)])
-    labs = {}
-    pick = rng.sample(range(n), min(n, 3))
-    for t, i in enumerate(pick):
-        labs[int(i)] = t % 2
-    la = -np.ones(n, dtype=int)
-    for i, v in labs.items():
-        la[i] = v
-    vals = {int(i): float(rng.choice([0, 1, 3])) for i in rng.sample(range(n), min(n, 2))}
-    va = -np.ones(n)
-    for i, v in vals.items():
-        va[i] = v
-    w = np.array([rng.choice([0.0, 1.0, 2.0]) for _ in range(n)])
-    if w.sum() == 0:
-        w[0] = 1.0
-    npr = np.random.default_rng(rng.randrange(10 ** 6))
-    dend = None
-    if n == m and n >= 2:
-        from sknetwork.hierarchy import Paris
+def _differs_from_reference(a, rep, fmt, dtype):
+    if a.nnz == 0:
+        return False
+    if fmt != 'csr_unsorted':
+        return True
+    if dtype != 'float64':
+        return True
+    return not np.array_equal(rep.indices, a.indices)
+
+
+_ENTRIES = None
+
+
+def _table():
+    global _ENTRIES
+    if _ENTRIES is None:
+        _ENTRIES = T.entries()
+    return _ENTRIES
+
+
+def _call(E, m, aux, conv):
+    with warnings.catch_warnings():
+        warnings.simplefilter('ignore')
         try:
-            sym = sparse.csr_matrix(a + a.T)
-            if sym.nnz:
-                with warnings.catch_warnings():
-                    warnings.simplefilter('ignore')
-                    dend = Paris().fit_predict(sym)
-        except Exception:  # noqa
-            dend = None
-    return {'sources': sorted(rng.sample(range(n), k)), 'partition': part, 'labels': labs, 'labels_array': la,
-            'values': vals, 'values_array': va, 'weights': w, 'order': np.array([rng.randint(-1, n) for _ in range(n)]),
-            'position': npr.random((n, 2)), 'features': npr.random((n, 3)), 'n_epochs': 3,
-            'names': np.array(['n%d' % i for i in range(n)]), 'dendrogram': dend}
+            np.random.seed(12345)
+            return E.f(m, aux, conv), None
+        except Exception as e:  # noqa: the exception is part of the observable behaviour that is compared
+            return None, (type(e).__name__, str(e)[:160])
 
 
-def _graph(rng, kind):
-    for _ in range(50):
-        if kind in ('und', 'und_conn'):
-            n = rng.randint(4, 11)
-            k = rng.choice(['path', 'cycle', 'star', 'grid', 'blocks', 'random_undirected', 'clique'] if kind == 'und_conn'
-                           else graphs.UNDIRECTED_KINDS[:-1])
-            es = graphs.structured(rng, k, n)
-            w = graphs.sym_weights(rng, es, rng.choice([[1], [1], [1, 2, 3]]))
-            a = graphs.csr_from_edges(n, es, w)
-            if kind == 'und_conn':
-                from scipy.sparse.csgraph import connected_components
-                if connected_components(a, directed=False)[0] != 1:
-                    continue
-        elif kind == 'dir':
-            n = rng.randint(4, 10)
-            es = graphs.structured(rng, rng.choice(graphs.DIRECTED_KINDS), n)
-            a = graphs.csr_from_edges(n, es, [1 for _ in es] if rng.random() < 0.5 else [rng.choice([1, 1, 2, 3]) for _ in es])
-        else:
-            nr, nc = rng.randint(3, 7), rng.randint(3, 7)
-            if nr == nc:
-                nc += 1
-            es = graphs.random_edges(rng, nr, 0.5, m=nc)
-            a = graphs.csr_from_edges(nr, es, [1 for _ in es] if rng.random() < 0.5 else [rng.choice([1, 1, 2]) for _ in es], m=nc)
-            if a.nnz and (np.diff(a.indptr).min() == 0 or np.diff(a.tocsc().indptr).min() == 0):
-                continue
-        if a.nnz >= 3:
-            return a
-    return a
+def _make_conv(fmt, dtype, seed, made):
+    def conv(x):
+        base = sparse.csr_matrix(x).astype(float)
+        d = dtype if T.representable(base.data, dtype) else 'float64'
+        y = T.apply_rep(base, fmt, d, seed)
+        made.append((y, snapshot(y)))
+        return y
+    return conv
 
 
-def relation_cases(ctx, per_entry, sub=None, only=None):
-    tgt = sub or ctx
-    rng = ctx.rng
-    E = _entries()
-    for name, (kind, policy, tol, f) in E.items():
-        if only and name not in only:
+def _modified(rec, sig, desc, m, before, aux, aux2, made):
+    if not same_snapshot(before, snapshot(m), allow_sorted=True):
+        rec['fails'].append((dict(sig, clause='input-modified', argument='matrix'), desc,
+                             {'why': 'the matrix passed by the caller was modified'}))
+    for k in aux:
+        if not same_snapshot(snapshot(aux[k]), snapshot(aux2[k])):
+            rec['fails'].append((dict(sig, clause='input-modified', argument=k), desc,
+                                 {'why': 'argument %s was modified by the call' % k}))
+    for obj, snap in made:
+        if not same_snapshot(snap, snapshot(obj), allow_sorted=True):
+            rec['fails'].append((dict(sig, clause='input-modified', argument='second matrix'), desc,
+                                 {'why': 'a second matrix argument (features / adjacency_vectors / probs ...) was modified'}))
+
+
+def compare_case(E, a, aux, kind, reps):
+    """the reference call and every representation of one graph; returns a record of counts and failures"""
+    rec = {'entry': E.name, 'kind': kind, 'counts': [], 'cases': [], 'fails': [], 'ref_raised': None, 'calls': 0}
+    gdesc, auxd = ser(a), {k: ser(v) for k, v in aux.items()}
+    shape, flat = tuple(a.shape), tuple(a.toarray().ravel().tolist())
+    # reference: a fresh float64 CSR (itself a representation for the "inputs not modified" clause)
+    made = []
+    m0 = sparse.csr_matrix(a, copy=True)
+    before, aux2 = snapshot(m0), copy.deepcopy(aux)
+    ref, ref_err = _call(E, m0, aux2, _make_conv('csr', 'float64', 0, made))
+    sig = {'entry': E.name, 'representation': 'csr:float64'}
+    desc = {'entry': E.name, 'kind': kind, 'representation': 'csr:float64', 'rep': ['csr', 'float64', 0], 'graph': gdesc, 'aux': auxd}
+    _modified(rec, sig, desc, m0, before, aux, aux2, made)
+    rec['calls'] += 1
+    rec['counts'] += ['entry:' + E.name, 'kind:' + kind, 'representation:csr:float64(reference)']
+    rec['cases'].append(((E.name, 'reference', shape, flat, aux['variant']), a.nnz > 0 and E.policy == 'none',
+                         {'entry': E.name, 'representation': 'csr:float64 (reference)', 'shape': list(shape)}))
+    if ref_err:
+        rec['ref_raised'] = ref_err
+        rec['counts'].append('reference-raises:' + E.name)
+    degen = E.sign_free and spectrum_degenerate(a)
+    void = E.top_simple and top_singular_multiple(a)      # HITS: the leading singular pair is not defined
+    for rname, fmt, dtype, seed in reps:
+        rep = T.apply_rep(a, fmt, dtype, seed)
+        made = []
+        before, aux2 = snapshot(rep), copy.deepcopy(aux)
+        out, err = _call(E, rep, aux2, _make_conv(fmt, dtype, seed, made))
+        rec['calls'] += 1
+        sig = {'entry': E.name, 'representation': rname, 'format': fmt, 'dtype': dtype}
+        desc = {'entry': E.name, 'kind': kind, 'representation': rname, 'rep': [fmt, dtype, seed], 'graph': gdesc, 'aux': auxd}
+        rec['counts'] += ['entry:' + E.name, 'format:' + fmt, 'dtype:' + dtype, 'kind:' + kind]
+        rec['cases'].append(((E.name, rname, seed if 'unsorted' in fmt or 'dup' in fmt else 0, shape, flat, aux['variant']),
+                             _differs_from_reference(a, rep, fmt, dtype),
+                             {'entry': E.name, 'representation': rname, 'shape': list(shape)}))
+        _modified(rec, sig, desc, rep, before, aux, aux2, made)
+        if err or ref_err:
+            if (err is None) != (ref_err is None) or err[0] != ref_err[0]:
+                rec['fails'].append((dict(sig, clause='format'), desc, {
+                    'why': 'raises on one representation only' if (err is None) != (ref_err is None) else 'raises another exception class',
+                    'reference(csr float64)': ref_err, rname: err}))
+            else:
+                rec['counts'].append('both-raise:' + E.name)
+                if err[1] != ref_err[1]:
+                    rec['counts'].append('both-raise-other-message:' + E.name)
             continue
-        for t in range(per_entry):
-            a = _graph(rng, kind)
-            aux = _aux(rng, a)
-            if name in ('dasgupta_cost', 'tree_sampling_divergence') and aux['dendrogram'] is None:
-                continue
-            with warnings.catch_warnings():
-                warnings.simplefilter('ignore')
-                try:
-                    np.random.seed(12345)
-                    ref, _ = f(sparse.csr_matrix(a, copy=True), aux)
-                    ref_err = None
-                except Exception as e:  # noqa
-                    ref, ref_err = None, type(e).__name__ + ': ' + str(e)[:100]
-            degen = name.startswith(SIGN_FREE) and spectrum_degenerate(a)
-            gdesc = {'shape': list(a.shape), 'dense': a.toarray().tolist()}
-            auxd = {k: (v.tolist() if hasattr(v, 'tolist') else v) for k, v in aux.items()}
-            for rname, rep in representations(a, rng, policy).items():
-                before = snapshot(rep)
-                aux2 = copy.deepcopy(aux)
-                with warnings.catch_warnings():
-                    warnings.simplefilter('ignore')
-                    try:
-                        np.random.seed(12345)
-                        out, kw = f(rep, aux2)
-                        err = None
-                    except Exception as e:  # noqa
-                        out, kw, err = None, {}, type(e).__name__ + ': ' + str(e)[:100]
-                after = snapshot(rep)
-                sig = {'entry': name, 'representation': rname}
-                desc = {'entry': name, 'representation': rname, 'graph': gdesc, 'aux': auxd}
-                key = (name, rname, tuple(a.shape), tuple(a.toarray().ravel().tolist()))
-                tgt.count('entry:' + name)
-                tgt.count('representation:' + rname)
-                tgt.case(key, True, {'entry': name, 'representation': rname, 'shape': list(a.shape)})
-                # (a) the caller's objects
-                if not same_snapshot(before, after, allow_sorted=True):
-                    tgt.spec_fail(dict(sig, clause='input-modified'), desc, {'why': 'the matrix passed by the caller was modified'})
-                for k in aux:
-                    if not same_snapshot(snapshot(aux[k]), snapshot(aux2[k])):
-                        tgt.spec_fail(dict(sig, clause='input-modified', argument=k), desc,
-                                      {'why': 'argument %s was modified by the call' % k})
-                # (b) same result
-                if err or ref_err:
-                    if (err is None) != (ref_err is None) or (err or '').split(':')[0] != (ref_err or '').split(':')[0]:
-                        tgt.spec_fail(dict(sig, clause='format'), desc, {'why': 'raises on one representation only',
-                                                                         'reference(csr float)': ref_err, rname: err})
-                    continue
-                if not same_output(ref, out, tol, sign_free=name.startswith(SIGN_FREE), degenerate=degen):
-                    tgt.spec_fail(dict(sig, clause='format'), desc, {'why': 'output differs from the CSR float reference',
-                                                                     'which': _first_diff(ref, out, tol)})
+        if void:
+            rec['counts'].append('leading-singular-value-multiple:' + E.name)
+            continue
+        tol = max(E.tol, F32_TOL) if dtype == 'float32' and E.tol > 0 else E.tol
+        ok, skipped = same_result(E, ref, out, tol, degen)
+        for s in skipped:
+            rec['counts'].append(s)
+        if not ok and E.tie_ok is not None and E.tie_ok(a, aux, ref, out, tol):
+            rec['counts'].append('tie-skipped:' + E.name)
+            continue
+        if not ok:
+            rec['fails'].append((dict(sig, clause='format'), desc, {'why': 'output differs from the CSR float64 reference',
+                                                                   'which': _first_diff(E, ref, out, tol, degen)}))
+    return rec
 
 
-def _first_diff(ref, out, tol):
-    if isinstance(ref, dict) and isinstance(out, dict):
-        for k in ref:
-            if k not in out or not same_output(ref[k], out[k], tol):
-                return k
-        return 'keys'
-    return 'value'
+def top_singular_multiple(a):
+    sv = np.linalg.svd(np.asarray(a.todense(), dtype=float), compute_uv=False)
+    return len(sv) > 1 and abs(sv[0] - sv[1]) < 1e-6 * max(1.0, sv[0])
+
+
+def same_result(E, ref, out, tol, degen):
+    """(equal?, list of counters of what was not compared)"""
+    skipped = []
+    if E.norm_mask:
+        # {'raw': fitted(normalized=False), 'normalized': fitted(normalized=True)}
+        if not same_output(ref['raw'], out['raw'], tol, sign_free=E.sign_free, degenerate=degen):
+            return False, skipped
+        if degen:
+            skipped.append('degenerate-spectrum:' + E.name)
+        r2, o2 = dict(ref['normalized']), dict(out['normalized'])
+        for k in list(r2):
+            if ('embedding' in k) and r2[k] is not None and k in ref['raw'] and ref['raw'][k] is not None:
+                nr = np.linalg.norm(_dense_arr(ref['raw'][k]), axis=1)
+                no = np.linalg.norm(_dense_arr(out['raw'][k]), axis=1)
+                big = max(float(nr.max(initial=0)), float(no.max(initial=0)))
+                keep = (nr > NORM_MASK * big) & (no > NORM_MASK * big)
+                if not keep.all():
+                    skipped.append('ill-conditioned-normalised-rows:' + E.name)
+                r2[k], o2[k] = _dense_arr(r2[k])[keep], _dense_arr(o2[k])[keep]
+        return same_output(r2, o2, tol, sign_free=E.sign_free, degenerate=degen), skipped
+    if E.sign_free and degen:
+        skipped.append('degenerate-spectrum:' + E.name)
+    return same_output(ref, out, tol, sign_free=E.sign_free, degenerate=degen), skipped
+
+
+def _first_diff(E, ref, out, tol, degen):
+    """name of the first part of the output that differs (same comparison as `same_result`)"""
+    def walk(r, o, prefix):
+        if isinstance(r, dict) and isinstance(o, dict):
+            for k in r:
+                if k not in o:
+                    return prefix + k
+                if isinstance(r[k], dict) and isinstance(o[k], dict):
+                    w = walk(r[k], o[k], prefix + k + '.')
+                    if w:
+                        return w
+                elif not same_output({k: r[k]}, {k: o[k]}, tol, sign_free=E.sign_free, degenerate=degen):
+                    return prefix + k
+            return None if r.keys() == o.keys() else prefix + 'keys'
+        return None if same_output(r, o, tol) else prefix + 'value'
+    return walk(ref, out, '') or 'normalised rows / whole'
+
+
+def _case_rng(seed, name, t):
+    h = hashlib.sha256(('%d|%s|%d' % (seed, name, t)).encode()).digest()
+    return random.Random(int.from_bytes(h[:8], 'big'))
+
+
+def _worker_init():
+    """one OpenMP thread per worker: thread-count effects are property C16's subject (push_pagerank is racy)"""
+    try:
+        import ctypes
+        ctypes.CDLL('libgomp.so.1').omp_set_num_threads(1)
+    except Exception:  # noqa: best effort
+        pass
+
+
+def _task(args):
+    """one (entry, graph number): worker-side; `only_rep` (None = all, -1 = reference only, k = k-th representation)
+    is used to isolate a call that kills the interpreter"""
+    if args[0] == '__replay__':
+        return _replay_rec(args[1])
+    seed, name, t = args[:3]
+    only_rep = args[3] if len(args) > 3 else None
+    E = _table()[name]
+    rng = _case_rng(seed, name, t)
+    kind = E.kinds[t % len(E.kinds)]
+    t0 = time.time()
+    a = T.make_graph(rng, kind)
+    aux = T.make_aux(rng, a, kind)
+    if E.needs and aux.get(E.needs) is None:
+        return {'entry': name, 'kind': kind, 'counts': ['skipped-no-%s:%s' % (E.needs, name)], 'cases': [], 'fails': [],
+                'ref_raised': None, 'calls': 0, 'skipped': True, 'time': 0.0, 'reps': []}
+    reps = T.choose_reps(a, rng, E.policy)
+    if only_rep is not None:
+        reps = [] if only_rep < 0 else reps[only_rep:only_rep + 1]
+    rec = compare_case(E, a, aux, kind, reps)
+    rec['time'] = time.time() - t0
+    rec['reps'] = [r[0] for r in reps]
+    if only_rep is not None:
+        rec['desc'] = {'entry': name, 'kind': kind, 'graph': ser(a), 'aux': {k: ser(v) for k, v in aux.items()},
+                       'all_reps': [list(r) for r in T.choose_reps(a, _skip_to_reps(seed, name, t, kind), E.policy)]}
+    return rec
+
+
+def _skip_to_reps(seed, name, t, kind):
+    """the generator of (entry, graph) advanced to the point where the representations are drawn"""
+    rng = _case_rng(seed, name, t)
+    a = T.make_graph(rng, kind)
+    T.make_aux(rng, a, kind)
+    return rng
+
+
+def _pool(workers):
+    return concurrent.futures.ProcessPoolExecutor(max_workers=workers, mp_context=multiprocessing.get_context('fork'),
+                                                  initializer=_worker_init)
+
+
+def _kill(ex):
+    for p in list((getattr(ex, '_processes', None) or {}).values()):
+        try:
+            p.terminate()
+        except Exception:  # noqa
+            pass
+    ex.shutdown(wait=False, cancel_futures=True)
+
+
+def _alone(args, deadline):
+    """run one task in a process of its own: (record, None) or (None, 'died' | 'timeout')"""
+    ex = _pool(1)
+    try:
+        return ex.submit(_task, args).result(timeout=max(1.0, min(120.0, deadline - time.time()))), None
+    except concurrent.futures.process.BrokenProcessPool:
+        return None, 'died'
+    except concurrent.futures.TimeoutError:
+        return None, 'timeout'
+    finally:
+        _kill(ex)
+
+
+def _isolate(task, deadline):
+    """a task whose worker died: which call kills the interpreter? The reference -> tool failure (the crash does not
+    depend on the format); a representation only -> a failing input of the property"""
+    ref, why = _alone(task + (-1,), deadline)
+    if ref is None:
+        raise ToolFailure('the interpreter %s in the reference (float64 CSR) call of entry %s, graph %d' % (why, task[1], task[2]))
+    rec = ref
+    for k, r in enumerate(ref['desc']['all_reps']):
+        one, why = _alone(task + (k,), deadline)
+        if one is not None:
+            for key in ('counts', 'cases', 'fails'):
+                rec[key] += [x for x in one[key] if key != 'cases' or x[0][1] != 'reference']
+            rec['calls'] += one['calls'] - 1
+            continue
+        if why == 'timeout':
+            raise ToolFailure('time-out in entry %s, graph %d, representation %s' % (task[1], task[2], r[0]))
+        desc = dict(ref['desc'], representation=r[0], rep=r[1:])
+        del desc['all_reps']
+        rec['fails'].append(({'entry': task[1], 'representation': r[0], 'format': r[1], 'dtype': r[2], 'clause': 'format'}, desc,
+                             {'why': 'the interpreter died (signal) on this representation; the float64 CSR reference call returns'}))
+    return rec
+
+
+def relation_cases(ctx, per_entry, sub=None, only=None, budget_s=None):
+    """run `per_entry` graphs for every entry (in a pool of worker processes), merge in a fixed order"""
+    tgt = sub or ctx
+    names = [n for n in _table() if not only or n in only]
+    tasks = [(ctx.seed, n, t) for n in names for t in range(per_entry)]
+    workers = max(1, min(12, (os.cpu_count() or 4) - 2, len(tasks)))
+    deadline = time.time() + (budget_s or (75 if ctx.quick else 780))
+    recs, todo = {}, list(tasks)
+    ex = _pool(workers)
+    try:
+        futs = [(a, ex.submit(_task, a)) for a in todo]
+        broken = False
+        for a, fu in futs:
+            try:
+                recs[a] = fu.result(timeout=max(1.0, deadline - time.time())) if not broken else fu.result(timeout=0)
+            except concurrent.futures.TimeoutError:
+                if not broken:
+                    raise ToolFailure('time budget exhausted while waiting for entry %s graph %d' % (a[1], a[2]))
+            except concurrent.futures.process.BrokenProcessPool:
+                broken = True
+            except concurrent.futures.CancelledError:
+                pass
+    finally:
+        _kill(ex)
+    rest = [a for a in tasks if a not in recs]
+    if rest:
+        # a worker died: re-run what is missing one task per process, then isolate the calls that kill it
+        log('C01: a worker process died; re-running %d tasks in isolation' % len(rest))
+        with concurrent.futures.ThreadPoolExecutor(max_workers=workers) as tex:
+            for a, (rec, why) in zip(rest, tex.map(lambda x: _alone(x, deadline), rest)):
+                if rec is not None:
+                    recs[a] = rec
+                elif why == 'timeout':
+                    raise ToolFailure('time-out in entry %s, graph %d' % (a[1], a[2]))
+        for a in [a for a in rest if a not in recs]:
+            recs[a] = _isolate(a, deadline)
+    stats, shown = {}, {}
+    for a in tasks:
+        rec = recs[a]
+        st = stats.setdefault(rec['entry'], {'graphs': 0, 'reference_raises': 0, 'calls': 0, 'both_raise': 0, 'kinds': set(), 'time': 0.0,
+                                             'error': None})
+        if not rec.get('skipped'):
+            st['graphs'] += 1
+        st['calls'] += rec['calls']
+        st['time'] += rec['time']
+        st['kinds'].add(rec['kind'])
+        if rec['ref_raised']:
+            st['reference_raises'] += 1
+            st['error'] = '%s: %s' % tuple(rec['ref_raised'])
+        for c in rec['counts']:
+            tgt.count(c)
+            if c.startswith('both-raise:'):
+                st['both_raise'] += 1
+        for key, nontrivial, sample in rec['cases']:
+            tgt.case(key, nontrivial, sample)
+        for sig, desc, detail in rec['fails']:
+            # at most three failing inputs per (entry, clause, argument) are reported; the rest is counted
+            k = (sig['entry'], sig.get('clause'), sig.get('argument'))
+            shown[k] = shown.get(k, 0) + 1
+            if shown[k] <= 3:
+                tgt.spec_fail(sig, desc, detail)
+            else:
+                tgt.count('further-failing-inputs-not-listed:' + sig['entry'])
+    return stats
+
+
+def check_liveness(ctx, stats):
+    """an entry whose reference call raises on every graph checks nothing: that is a failure of this tool"""
+    dead = sorted(n for n, st in stats.items() if st['graphs'] >= 2 and st['reference_raises'] == st['graphs'])
+    void = {n: '%d/%d' % (st['reference_raises'], st['graphs']) for n, st in stats.items() if st['reference_raises']}
+    ctx.extra['entries'] = len(stats)
+    ctx.extra['graphs_per_entry'] = PER_ENTRY[ctx.tier]
+    ctx.extra['entries_by_policy'] = {p: sum(1 for e in _table().values() if e.policy == p) for p in ('all', 'csr', 'csr+dense', 'none')}
+    ctx.extra['reference_raises'] = void
+    ctx.extra['both_raise'] = {n: st['both_raise'] for n, st in stats.items() if st['both_raise']}
+    ctx.extra['slowest_entries_s'] = {n: round(st['time'], 1) for n, st in sorted(stats.items(), key=lambda x: -x[1]['time'])[:5]}
+    if dead:
+        msg = 'entries whose reference (float64 CSR) call raises on every graph: ' + '; '.join('%s [%s]' % (n, stats[n]['error']) for n in dead)
+        if ctx.spec_failures:
+            ctx.note('TOOL PROBLEM (reported next to the violations): ' + msg)
+            log('TOOL PROBLEM: ' + msg)
+        else:
+            raise ToolFailure(msg)
 
 
 # ------------------------------------------------------------------------------------------------
@@ -607,31 +739,92 @@ def ownership_obligations(ctx):
 
 
 def run(ctx):
-    evaluate(ctx, container_cases(ctx, 400 if ctx.quick else 4000))
+    corpus_cases(ctx)
+    evaluate(ctx, container_cases(ctx, CONTAINERS[ctx.tier]))
     ownership_obligations(ctx)
-    relation_cases(ctx, 3 if ctx.quick else 30)
+    stats = relation_cases(ctx, PER_ENTRY[ctx.tier])
+    check_liveness(ctx, stats)
+
+
+def corpus_cases(ctx):
+    """witnesses of the repaired defects (corpus/C01.jsonl) are replayed first"""
+    import json
+    from vlib import core
+    p = os.path.join(core.VERIF, 'corpus', 'C01.jsonl')
+    if not os.path.exists(p):
+        return
+    n = 0
+    for ln in open(p):
+        ln = ln.strip()
+        if ln and not ln.startswith('#'):
+            replay_case(ctx, json.loads(ln)['case'])
+            n += 1
+    ctx.extra['corpus_cases'] = n
+
+
+def _replay_rec(case):
+    E = _table().get(case['entry'])
+    if E is None:
+        raise ToolFailure('replay: unknown entry %r' % case['entry'])
+    a = sparse.csr_matrix(deser(case['graph'])).astype(float)
+    a.sum_duplicates()
+    a.sort_indices()
+    aux = {k: deser(v) for k, v in case['aux'].items()}
+    fmt, dtype, seed = case['rep']
+    reps = [] if (fmt, dtype) == ('csr', 'float64') else [(case['representation'], fmt, dtype, seed)]
+    rec = compare_case(E, a, aux, case.get('kind', '?'), reps)
+    rec['time'] = 0.0
+    return rec
+
+
+def replay_case(tgt, case):
+    """re-run exactly the recorded graph, arguments and representation (in a process of its own: the recorded
+    input may be one that kills the interpreter)"""
+    rec, why = _alone(('__replay__', case), time.time() + 120)
+    if rec is None:
+        # does the reference alone survive?
+        ref, why0 = _alone(('__replay__', dict(case, rep=['csr', 'float64', 0])), time.time() + 120)
+        if ref is None:
+            raise ToolFailure('replay: the interpreter %s in the reference call of %s' % (why0, case['entry']))
+        fmt, dtype = case['rep'][:2]
+        tgt.case(('replay', case['entry'], case['representation']), True, None)
+        tgt.spec_fail({'entry': case['entry'], 'representation': case['representation'], 'format': fmt, 'dtype': dtype, 'clause': 'format'},
+                      case, {'why': 'the interpreter %s on this representation; the float64 CSR reference call returns' % why})
+        return None
+    for c in rec['counts']:
+        tgt.count(c)
+    for key, nontrivial, sample in rec['cases']:
+        tgt.case(key, nontrivial, sample)
+    for sig, desc, detail in rec['fails']:
+        tgt.spec_fail(sig, desc, detail)
+    return rec
 
 
 def search(ctx, pending):
     """a broken obligation / correspondence: look for a concrete failing input of the statement itself"""
     sub = Sub(ctx)
-    only = None
     names = set()
     for kind, sig, obj in pending:
         fnname = (sig or {}).get('function', '')
-        for e in _entries():
-            cls = e.split('(')[0]
+        for e in _table():
+            cls = e.split('(')[0].split('.')[0]
             if cls and ('.' + cls + '.' in fnname or fnname.endswith('.' + cls)):
                 names.add(e)
-    relation_cases(ctx, 8, sub=sub, only=names or None)
-    if not sub.spec_failures and names:
-        relation_cases(ctx, 3, sub=sub)
+    if names:
+        relation_cases(ctx, 9, sub=sub, only=names, budget_s=120)
     return sub.found()
 
 
 def replay(ctx, payload):
     case = payload.get('case') or {}
-    if case.get('entry'):
-        relation_cases(ctx, 12, only={case['entry']})
+    if case.get('entry') and case.get('graph') is not None and case.get('rep'):
+        replay_case(ctx, case)
+    elif case.get('f') == 'check_format' and case.get('line'):
+        evaluate(ctx, [container_case_from_desc(case)])
     else:
-        run(ctx)
+        # a broken generated obligation: re-decide the obligations on the current tree
+        ownership_obligations(ctx)
+
+
+def container_case_from_desc(case):
+    return Case(('replay', case['line']), {'entry': 'check_format'}, case['line'], case.get('impl'), None, True, case)
